@@ -348,6 +348,12 @@ def r14_5(ctx: Ctx):
                 if not owners and a.attr in ("parents",):
                     continue
                 ok = f.short in ENTROPY_FIELDS[a.attr]
+                if not ok and a.attr == "_durations":
+                    from ..core import parents_map
+
+                    par = parents_map(f.node).get(id(a))
+                    if isinstance(par, ast.Call) and norm(par.func) in ("len", "list") and par.args and par.args[0] is a:
+                        ok = True  # how many timings there are does not depend on the clock
                 obs.append(ctx.ob("R14.5", f, a, status=OK if ok else VIOLATION, detail=f"`{a.attr}` read at a tabled site" if ok else f"{f.short} reads `{norm(a)}`, a field defined from entropy/clock: its value is not reproducible and must not influence the run"))
     return obs
 
